@@ -45,6 +45,47 @@ ShapeOK(pages, buckets, ps) ==
    /\ FitsOK(pages) /\ BalancedOK(pages) /\ BranchOK(pages) /\ LeafOK(pages) /\ RootOK(pages) /\ InlineOK(buckets, ps)
 
 (***************************************************************************)
+(* Bucket.Stats() (bucket.go:624-707) as a function of the same facts.     *)
+(* For a bucket t: its subtree Sub(t) = t and every bucket nested below it.*)
+(* Page counts, bytes in use, overflow pages, key and bucket counts are    *)
+(* sums over Sub(t); Depth(t) = levels of t's own tree + the largest Depth *)
+(* of a bucket nested directly in t.                                       *)
+(***************************************************************************)
+RECURSIVE SumFrom(_, _)
+SumFrom(s, i) == IF i > Len(s) THEN 0 ELSE s[i] + SumFrom(s, i + 1)
+SumSeq(s, i, F(_)) == SumFrom([j \in 1..Len(s) |-> F(s[j])], i)
+BucketOf(buckets, id) == CHOOSE i \in 1..Len(buckets) : buckets[i].id = id
+RECURSIVE Under(_, _, _)
+Under(buckets, t, id) == id = t \/ (id # 0 /\ Under(buckets, t, buckets[BucketOf(buckets, id)].parent))
+Levels1(pages, buckets, id) ==
+   IF buckets[BucketOf(buckets, id)].inline THEN 1
+   ELSE LET ds == {pages[i].depth : i \in {j \in 1..Len(pages) : pages[j].bucket = id}} IN
+        IF ds = {} THEN 0 ELSE CHOOSE m \in ds : \A x \in ds : x <= m
+RECURSIVE DepthOf(_, _, _)
+DepthOf(pages, buckets, id) ==
+   LET kids == {buckets[i].id : i \in {j \in 1..Len(buckets) : buckets[j].parent = id}}
+       kd == {DepthOf(pages, buckets, k) : k \in kids}
+   IN Levels1(pages, buckets, id) + (IF kd = {} THEN 0 ELSE CHOOSE m \in kd : \A x \in kd : x <= m)
+StatsOf(pages, buckets, ps, t) ==
+   LET inSub(id) == Under(buckets, t, id)
+       leafN(p) == IF p.kind = "leaf" /\ inSub(p.bucket) THEN 1 ELSE 0
+       leafOv(p) == IF p.kind = "leaf" /\ inSub(p.bucket) THEN p.cap \div ps - 1 ELSE 0
+       leafUse(p) == IF p.kind = "leaf" /\ inSub(p.bucket) THEN p.used ELSE 0
+       brN(p) == IF p.kind = "branch" /\ inSub(p.bucket) THEN 1 ELSE 0
+       brOv(p) == IF p.kind = "branch" /\ inSub(p.bucket) THEN p.cap \div ps - 1 ELSE 0
+       brUse(p) == IF p.kind = "branch" /\ inSub(p.bucket) THEN p.used ELSE 0
+       bN(b) == IF inSub(b.id) THEN 1 ELSE 0
+       inlN(b) == IF inSub(b.id) /\ b.inline THEN 1 ELSE 0
+       inlUse(b) == IF inSub(b.id) /\ b.inline THEN b.size ELSE 0
+       keyN(b) == IF inSub(b.id) THEN b.keys ELSE 0
+       lp == SumSeq(pages, 1, leafN) lo == SumSeq(pages, 1, leafOv) bp == SumSeq(pages, 1, brN) bo == SumSeq(pages, 1, brOv)
+   IN [branchPageN |-> bp, branchOverflowN |-> bo, leafPageN |-> lp, leafOverflowN |-> lo,
+       keyN |-> SumSeq(buckets, 1, keyN), depth |-> DepthOf(pages, buckets, t),
+       branchAlloc |-> (bp + bo) * ps, branchInuse |-> SumSeq(pages, 1, brUse),
+       leafAlloc |-> (lp + lo) * ps, leafInuse |-> SumSeq(pages, 1, leafUse),
+       bucketN |-> SumSeq(buckets, 1, bN), inlineBucketN |-> SumSeq(buckets, 1, inlN), inlineBucketInuse |-> SumSeq(buckets, 1, inlUse)]
+
+(***************************************************************************)
 (* Closed model of the node algebra on ONE bucket tree with unit-weight    *)
 (* keys: a node holds a number of keys (leaf) or children (branch);        *)
 (* Cap keys fit on a page; a commit splits over-full nodes bottom-up and   *)
